@@ -671,13 +671,183 @@ def rule_fm_mark_distance(prog, fixture=False):
     return r
 
 
+# ---------------------------------------------------------------- R-C06-7
+class _NoValue(Exception):
+    pass
+
+
+def _ceval(fn, e, is_input, value, depth=0):
+    """Value of an integer/bool expression in which the expressions selected by is_input stand for `value` and
+    every other operand is a constant or a never-reassigned local with such an initialiser."""
+    e = strip_all(e)
+    if e is None or depth > 12:
+        raise _NoValue("depth")
+    if is_input(e):
+        return value
+    v = folded(e)
+    if v is not None:
+        return v
+    k = e.get("k")
+    if k in ("CStyleCastExpr", "CXXStaticCastExpr", "CXXFunctionalCastExpr", "ImplicitCastExpr", "ParenExpr") and e.get("c"):
+        x = _ceval(fn, e["c"][0], is_input, value, depth + 1)
+        w = e.get("w")
+        if w and not e.get("sg"):
+            x &= (1 << w) - 1
+        return x
+    if k == "DeclRefExpr" and e.get("dk") == "Var":
+        if any(d_ == e["d"] for y in fn.walk() for d_, _ in flow.written_decls(y)):
+            raise _NoValue("`%s` is reassigned" % e.get("n"))
+        for vd in fn.walk():
+            if vd.get("k") == "VarDecl" and vd.get("d") == e["d"] and vd.get("c"):
+                return _ceval(fn, vd["c"][0], is_input, value, depth + 1)
+        raise _NoValue("no initialiser for `%s`" % e.get("n"))
+    if k == "ConditionalOperator":
+        return _ceval(fn, e["c"][1] if _ceval(fn, e["c"][0], is_input, value, depth + 1) else e["c"][2], is_input, value, depth + 1)
+    if k == "UnaryOperator" and e.get("op") in ("!", "~", "-"):
+        x = _ceval(fn, e["c"][0], is_input, value, depth + 1)
+        return int(not x) if e["op"] == "!" else (~x if e["op"] == "~" else -x)
+    if k == "BinaryOperator":
+        op = e.get("op")
+        a = _ceval(fn, e["c"][0], is_input, value, depth + 1)
+        if op == "&&":
+            return int(bool(a) and bool(_ceval(fn, e["c"][1], is_input, value, depth + 1)))
+        if op == "||":
+            return int(bool(a) or bool(_ceval(fn, e["c"][1], is_input, value, depth + 1)))
+        b = _ceval(fn, e["c"][1], is_input, value, depth + 1)
+        table = {"==": lambda: int(a == b), "!=": lambda: int(a != b), "<": lambda: int(a < b), "<=": lambda: int(a <= b),
+                 ">": lambda: int(a > b), ">=": lambda: int(a >= b), "&": lambda: a & b, "|": lambda: a | b,
+                 "^": lambda: a ^ b, "+": lambda: a + b, "-": lambda: a - b, "<<": lambda: a << b, ">>": lambda: a >> b}
+        if op in table:
+            return table[op]()
+    raise _NoValue("expression `%s`" % show(e)[:40])
+
+
+def _fm_split(p):
+    """(clock byte, data byte) of a 16-bit FM cell pattern: clock and data bits alternate, clock first."""
+    clock = data = 0
+    for i in range(8):
+        clock |= ((p >> (2 * i + 1)) & 1) << i
+        data |= ((p >> (2 * i)) & 1) << i
+    return clock, data
+
+
+def rule_fm_mark_is_checked_mark(prog, fixture=False):
+    r = RuleResult("R-C06-7", "FM decoder: the data-address-mark byte that is fed to the CRC is the mark that was "
+                   "recorded - for every 16-bit cell pattern the mark search accepts, the byte placed ahead of the "
+                   "data field in the CRC computation equals the pattern's data bits and its clock bits are the "
+                   "mark clock 0xC7 (all patterns the scan mask admits are enumerated)", floor=0 if fixture else 2)
+    for lam in prog.functions.values():
+        if "operator()" not in lam.qn:
+            continue
+        scans = [n for n in lam.walk() if n.get("k") == "CXXMemberCallExpr" and (strip(n["c"][0]) or {}).get("n") == "scan_for"]
+        if len(scans) != 1 or len(scans[0]["c"]) < 4:
+            continue
+        pat, mask = folded(scans[0]["c"][2]), folded(scans[0]["c"][3])
+        if pat is None or mask is None:
+            continue
+        pat16, mask16 = pat & 0xFFFF, mask & 0xFFFF
+        if mask16 == 0xFFFF:
+            cands = [pat16]
+        else:
+            free = [i for i in range(16) if not (mask16 >> i) & 1]
+            if len(free) > 8:
+                r.undecided.append("%s: the scan mask leaves %d bits open" % (lam.loc(scans[0]), len(free)))
+                continue
+            cands = []
+            for m in range(1 << len(free)):
+                v = pat16 & mask16
+                for j, i in enumerate(free):
+                    v |= ((m >> j) & 1) << i
+                cands.append(v)
+        # the scan result variable and the returns that hand back its pattern
+        res = [v for v in lam.walk() if v.get("k") == "VarDecl" and v.get("c") and any(x is scans[0] for x in walk(v))]
+        if len(res) != 1:
+            continue
+        rd = res[0]["d"]
+
+        def is_pattern(e, rd=rd):
+            return e.get("k") == "MemberExpr" and e.get("n") == "second" and any(
+                x.get("k") == "DeclRefExpr" and x.get("d") == rd for x in walk(e))
+        other_writes = [y for y in lam.walk() if y.get("k") in ("BinaryOperator", "CompoundAssignOperator") and
+                        y.get("op") in flow.ASSIGN_OPS and is_pattern(strip_all(y["c"][0]) or {}) and
+                        not (y.get("op") == "&=" and folded(y["c"][1]) == 0xFFFF)]
+        rets = [x for x in lam.walk() if x.get("k") == "ReturnStmt" and x.get("c") and
+                any(is_pattern(y) for y in walk(x["c"][0]))]
+        if other_writes or not rets:
+            r.undecided.append("%s: the mark search does not hand back the pattern it found in a form this rule follows" % lam.loc(scans[0]))
+            continue
+        accepted = set()
+        try:
+            for v in cands:
+                for ret in rets:
+                    conds = []
+                    for a in lam.ancestors(ret):
+                        if a.get("k") == "IfStmt":
+                            then = a["c"][a["parts"]["then"]]
+                            conds.append((a["c"][a["parts"]["cond"]], any(x is ret for x in walk(then))))
+                        elif a.get("k") in ("WhileStmt", "ForStmt", "DoStmt", "CompoundStmt"):
+                            continue
+                        elif a.get("k") not in ("IfStmt",) and a is not lam.body:
+                            pass
+                    if all(bool(_ceval(lam, c, is_pattern, v)) == sense for c, sense in conds
+                           if any(is_pattern(y) for y in walk(c))):
+                        accepted.add(v)
+        except _NoValue as e:
+            r.undecided.append("%s: cannot evaluate the acceptance test of the mark search (%s)" % (lam.loc(rets[0]), e))
+            continue
+        # the caller: the variable holding the lambda's result, and the one-byte array given to the CRC first
+        for fn in prog.functions.values():
+            holders = [v for v in fn.walk() if v.get("k") == "VarDecl" and v.get("c") and
+                       any(x.get("k") in ("CXXOperatorCallExpr", "CallExpr") and lam in prog.call_targets(fn, x) for x in walk(v))]
+            for h in holders:
+                hd = h["d"]
+
+                def is_mark(e, hd=hd):
+                    if e.get("k") == "CXXOperatorCallExpr" and e.get("op") == "*" and len(e.get("c", [])) >= 2:
+                        return (strip_all(e["c"][1]) or {}).get("d") == hd
+                    if e.get("k") == "CXXMemberCallExpr" and (strip(e["c"][0]) or {}).get("n") == "value":
+                        return any(x.get("k") == "DeclRefExpr" and x.get("d") == hd for x in walk(e))
+                    return False
+                ups = [n for n in fn.walk() if n.get("k") == "CXXMemberCallExpr" and (strip(n["c"][0]) or {}).get("n") == "update"
+                       and "CRC" in notpl((strip(n["c"][0]) or {}).get("q") or "")]
+                seeds = []
+                for u in ups:
+                    a0 = strip_all(u["c"][1]) if len(u["c"]) > 1 else None
+                    if a0 is not None and a0.get("k") == "DeclRefExpr":
+                        for vd in fn.walk():
+                            if vd.get("k") == "VarDecl" and vd.get("d") == a0["d"] and vd.get("c") and "[1]" in (vd.get("t") or ""):
+                                il = strip_all(vd["c"][0])
+                                if il is not None and il.get("k") == "InitListExpr" and len(il.get("c", [])) == 1:
+                                    seeds.append((u, vd, il["c"][0]))
+                if not seeds:
+                    r.undecided.append("%s: cannot find the mark byte given to the CRC ahead of the data field" % fn.loc(h))
+                    continue
+                u, vd, elem = seeds[0]
+                for v in sorted(accepted):
+                    key = "%s::%s::mark 0x%04X" % (fn.relfile(), fn.qn, v)
+                    clock, data = _fm_split(v)
+                    try:
+                        seed = _ceval(fn, elem, is_mark, v) & 0xFF
+                    except _NoValue as e:
+                        r.undecided.append("%s: cannot evaluate the mark byte given to the CRC (%s)" % (fn.loc(vd), e))
+                        break
+                    ok = clock == 0xC7 and seed == data
+                    r.add(key, lam.loc(rets[0]), ok, "clock 0xC7, data 0x%02X = the byte checked by the CRC" % data if ok else
+                          "the mark search accepts the cell pattern 0x%04X (clock 0x%02X, data 0x%02X) but the CRC is computed as "
+                          "if the mark byte were 0x%02X: a data field whose mark was damaged passes the CRC check and its "
+                          "sector is returned as good" % (v, clock, data, seed))
+    return r
+
+
 def run(ctx):
     prog = ctx.prog("dfs", "N")
     return [rule_crc_gating(prog), rule_crc_whole_register(prog), rule_track_validation(prog),
-            rule_address_lookup(prog), rule_fm_mark_distance(prog), rule_track_checks_unconditional(prog)]
+            rule_address_lookup(prog), rule_fm_mark_distance(prog), rule_track_checks_unconditional(prog),
+            rule_fm_mark_is_checked_mark(prog)]
 
 
 SELFTESTS = [
+    (rule_fm_mark_is_checked_mark, ["c06_mark_bad.cc"], ["c06_mark_good.cc"], "mark 0xF56B"),
     (rule_crc_gating, ["c06_bad.cc"], ["c06_good.cc"], "push"),
     (rule_crc_gating, ["c06_bad.cc"], ["c06_good.cc"], "enter-record-state"),
     (rule_address_lookup, ["c06_bad.cc"], ["c06_good.cc"], "read_block"),
